@@ -143,7 +143,7 @@ let parse_cmd (line : string) : Spec.cmd option =
   | ["del"; t; h; k] -> Some (Spec.COp (num t, Spec.ODel (num h, tok k)))
   | ["nextint"; t; h] -> Some (Spec.COp (num t, Spec.ONextInt (num h)))
   | ["scan"; t; h] -> Some (Spec.COp (num t, Spec.OScan (num h)))
-  | ["seek"; t; h; k] -> Some (Spec.COp (num t, Spec.OSeek (num h, tok k)))
+  | ["seek"; t; h; k] | ["seek"; t; h; k; _] -> Some (Spec.COp (num t, Spec.OSeek (num h, tok k)))
   | ["range"; t; h; lk; lo; hk; hi] -> Some (Spec.COp (num t, Spec.ORange (num h, bound_of lk lo, bound_of hk hi)))
   | ["buckets"; t; h] -> Some (Spec.COp (num t, Spec.OBuckets (num h)))
   | ["kvpairs"; t; h] -> Some (Spec.COp (num t, Spec.OKvPairs (num h)))
@@ -286,7 +286,7 @@ let cmd_cursor (ps : int) (file : string) (ops : string) : unit =
                       (match Cursor.scan t with
                        | Cursor.CPanic -> print_endline "items: PANIC"
                        | Cursor.CVal l -> print_endline ("items:" ^ fmt_items (L.filter (fun i -> match i with Spec.IKv _ -> true | _ -> false) l)))
-                  | "seek", [k] ->
+                  | "seek", [k] | "seek", [k; _] ->
                       let (ex, r) = Cursor.seek_scan t (tok k) in
                       print_endline ("seek:" ^ (if ex then "1" else "0") ^ ":" ^ fmt_cur r)
                   | "range", [lk; lo; hk; hi] ->
@@ -797,6 +797,45 @@ type mop = MTouch of string list | MPut of string list * string * string | MDel 
 let emit_hist : Buffer.t option ref = ref None
 let hexs (x : string) : string = if x = "" then "-" else S.concat "" (L.init (S.length x) (fun i -> Printf.sprintf "%02x" (Char.code (S.get x i))))
 let hline fmt = Printf.ksprintf (fun l -> match !emit_hist with Some b -> Buffer.add_string b l; Buffer.add_char b '\n' | None -> ()) fmt
+(* the statement about reads INSIDE a write transaction, evaluated (every 4th transaction): after the first half of the
+   operations and after all of them, a cursor scan of EVERY bucket of the reference's tree through the model's overlay
+   (EngineScan.tx_scan) returns the reference's entries, and a path that is no bucket answers an error *)
+let reads_calls = ref 0 and reads_scans = ref 0
+let reads_inside (eng : Engine.db) (eops : Engine.op list) : string option =
+  incr reads_calls;
+  if !reads_calls mod 4 <> 0 then None else begin
+    let n = L.length eops in
+    let prefix k = L.filteri (fun i _ -> i < k) eops in
+    let bad = ref None in
+    L.iter (fun ops ->
+      if !bad = None then begin
+        let m = EngineAbs.sem_tx ops (EngineAbs.abs_db eng) in
+        let rec walk (path : Byte.byte list list) (b : Spec.snode) =
+          if !bad = None then begin
+            incr reads_scans;
+            (match EngineScan.tx_scan eng ops path with
+             | Engine.Ok (Cursor.CVal l) ->
+                 if l <> Spec.items_of b then
+                   bad := Some (Printf.sprintf "statement: scan inside the write transaction after %d of %d operations at /%s differs from the reference"
+                                  (L.length ops) n (S.concat "/" (L.map hex path)))
+             | Engine.Ok Cursor.CPanic -> bad := Some "cursor machine panics on the overlay tree"
+             | Engine.Panic msg -> bad := Some ("panic inside the transaction: " ^ string_of_coq msg)
+             | Engine.Err msg -> bad := Some ("scan inside the write transaction: error " ^ string_of_coq msg));
+            (match b with
+             | Spec.SBucket (_, _, es) ->
+                 L.iter (fun (k, c) -> match c with
+                   | Spec.SBucket _ -> walk (path @ [k]) c
+                   | Spec.SVal _ ->
+                       (match EngineScan.tx_scan eng ops (path @ [k]) with
+                        | Engine.Err _ -> ()
+                        | _ -> bad := Some "scan of a path through a plain value did not answer an error")) es
+             | _ -> ())
+          end in
+        walk [] m
+      end) [prefix (n / 2); eops];
+    !bad
+  end
+
 let apply_tx (eng : Engine.db) (spec : Spec.sdb) (txn : int) (ops : mop list) : (Engine.db, string) result * Spec.sdb =
   (* the reference machine is driven by the EXTRACTED SpecPath.path_step (handles per path, one get_or_create call per
      component); the engine gets the same operations with every successful open made explicit (SpecPath.expand) *)
@@ -827,7 +866,7 @@ let apply_tx (eng : Engine.db) (spec : Spec.sdb) (txn : int) (ops : mop list) : 
         else if not (EngineRefines.db_alloc_okb e) then Error "unproved half of the invariant: the new state fails the allocation check db_alloc_okb"
         else if lhs <> rhs then Error "statement: abs_db (run_tx st ops) <> sem_tx ops (abs_db st)"
         else if rhs <> committed' then Error "statement: sem_tx (expand ops) differs from the handle-based reference machine"
-        else Ok e
+        else (match reads_inside eng eops with Some m -> Error m | None -> Ok e)
     | Engine.Panic m -> Error ("panic: " ^ string_of_coq m)
     | Engine.Err m -> Error ("error: " ^ string_of_coq m) in
   (er, sp')
@@ -904,7 +943,7 @@ let cmd_msearch (args : string list) : unit =
              done
            done
        | _ -> prerr_endline "msearch: bad family");
-      Printf.printf "done cases=%d hits=%d\n" !cases !hits
+      Printf.printf "done cases=%d hits=%d scans_inside_tx=%d\n" !cases !hits !reads_scans
   | _ -> prerr_endline "usage: monitor msearch subsets|ranges <P> <n> <keylen> <subs> [lo hi] | msearch random <P> <seed0> <nseeds> <ntx> <nops>"
 
 (* msearch random: chains of transactions of random path-addressed operations over a small universe in which names
@@ -953,7 +992,7 @@ let cmd_msearch_random (args : string list) : unit =
           done
         with Exit -> ())
       done;
-      (match !emit_hist with Some b -> print_string (Buffer.contents b) | None -> Printf.printf "done cases=%d hits=%d\n" !cases !hits)
+      (match !emit_hist with Some b -> print_string (Buffer.contents b) | None -> Printf.printf "done cases=%d hits=%d scans_inside_tx=%d\n" !cases !hits !reads_scans)
   | _ -> prerr_endline "usage: monitor msearch random <P> <seed0> <nseeds> <ntx> <nops> [emit]"
 
 let () =
